@@ -75,7 +75,7 @@ func VerifC01History() {
 	vrt.Assert(db.Put(vmObj(0, c01Else, object.TypeRegular, -1, 3)) == nil, "setup put")
 	k := vrt.Param("K")
 	for step := 0; step < k; step++ {
-		switch vrt.Choice("op", 6) {
+		switch vrt.Choice("op", 7) {
 		case 0: // put T
 			e := expT
 			err := db.Put(vmObj(0, c01T, object.TypeRegular, e, 7))
@@ -118,6 +118,8 @@ func VerifC01History() {
 			if err == nil {
 				f.cnrGone = true
 			}
+		case 6: // "redundant copy" mark on T: the object stays available, an earlier removal mark stays in force
+			_, _ = db.MarkGarbage(vmCID(0), []oid.ID{vmOID(c01T)}, GarbageMarkRedundant)
 		}
 	}
 	epoch := ep.e
